@@ -65,6 +65,7 @@ class Ctx:
         self.feas_unknown = 0
         self.byte_terms = set()
         self.ufs = set()
+        self.var_bounds = {}      # name of an Int constant -> (lo, hi) stated when it was created
         self.no_fork = 0          # >0 while evaluating invariants / quantifier bodies: and/or/if-expressions build terms
         self.len_terms = {}       # id -> length-like Int term (for small-model preference in counterexamples)
         self.opaque_facts_done = set()
@@ -146,6 +147,8 @@ class Ctx:
             return
         if e.get_id() not in self.byte_terms:
             self.byte_terms.add(e.get_id())
+            if z3.is_const(e):
+                self.var_bounds[str(e)] = (0, 255)
             self.fact(z3.And(e >= 0, e <= 255))
 
     def check(self, *extra):
